@@ -3,7 +3,7 @@ Proof: Properties/C07.v, C06_ancestry.v (guaranteed ancestry), Proofs/C08Tables.
 Tie: whole validator vs Coq model on conformant scenarios, operation faults, and a systematic family around
 appends_objects_to: which shape of action makes which attribute settable."""
 import random, itertools
-import scen_check, engine, scenario as S
+import scen_check, engine, families, scenario as S
 
 LEVEL = "proof"
 OWNERS = ("C07",)
@@ -63,6 +63,6 @@ def settable_family(ctx, rng):
 
 def run(ctx):
     scen_check.scenario_check(
-        ctx, owners=OWNERS, n_valid=60, n_mut=260, extra=settable_family, prop_files=PROP_FILES,
-        rule="conformant scenarios (half with thread groups, two renderings each), single-fault mutants owned by C07, and the settable family: owner action shape (plain / threaded without, with own, with the group's repeated checkpoint) x editor present x 7 operation forms, with an action appending to the owner's edge collection; distinct by abstract scenario",
+        ctx, owners=OWNERS, n_valid=60, n_mut=260, extra=lambda c, r: settable_family(c, r) + families.guaranteed_family(r), prop_files=PROP_FILES,
+        rule="conformant scenarios (half with thread groups, two renderings each), single-fault mutants owned by C07, the guaranteed-ancestry family (5 gate types x 4 x 4 branch shapes incl. diamonds through a shared nested checkpoint), and the settable family: owner action shape (plain / threaded without, with own, with the group's repeated checkpoint) x editor present x 7 operation forms, with an action appending to the owner's edge collection; distinct by abstract scenario",
         trusted=[])
